@@ -16,6 +16,7 @@ import (
 	"verifharness/ev"
 	"verifharness/lib"
 	"verifharness/memnet"
+	"verifharness/sctpmem"
 )
 
 // connMonitor is the online per-connection monitor: in-flight handlers and
@@ -74,6 +75,9 @@ type c08Scenario struct {
 	// earlier events in the life of the server / mux: 1 = a connection whose TLS handshake
 	// failed, 2 = a connection whose handler panicked, followed by a handler registration
 	prelude int
+	// the connections are SCTP associations (in-memory backend); consecutive messages
+	// arrive on different streams
+	sctp bool
 }
 
 // c08Body: body size of message s on connection i (below, at and above the 1 KiB pooled read buffer)
@@ -141,6 +145,10 @@ func runC08(c *ev.Case, ctx *lib.Ctx, sc c08Scenario) {
 		conns[i].Remote = memnet.Addr{Net: "tcp", Str: fmt.Sprintf("10.0.0.%d:1000", i+1)}
 		byAddr[conns[i].Remote.String()] = i
 		mons[i] = &connMonitor{}
+	}
+	if sc.sctp {
+		runC08SCTP(c, ctx, sc, h, mons, byAddr, held, release)
+		return
 	}
 	ln := memnet.NewListener()
 	srv := &diam.Server{Handler: h, Dict: ctx.Parser}
@@ -300,6 +308,90 @@ func runC08(c *ev.Case, ctx *lib.Ctx, sc c08Scenario) {
 	}
 }
 
+// runC08SCTP: the same monitors over SCTP associations; message s of a connection
+// arrives on stream s mod 3 (one association = one connection: one handler at a
+// time, in arrival order, whatever the streams).
+func runC08SCTP(c *ev.Case, ctx *lib.Ctx, sc c08Scenario, h diam.Handler, mons []*connMonitor, byAddr map[string]int, held, release chan struct{}) {
+	sig := func(op string) ev.Sig {
+		return ev.Sig{"op": op, "dialled": true, "pattern": sc.pattern, "handler": sc.handler, "transport": "sctp"}
+	}
+	assocs := make([]*sctpmem.Assoc, sc.K)
+	for i := range assocs {
+		a := sctpmem.New()
+		a.Remote = fmt.Sprintf("10.0.0.%d:1000", i+1)
+		assocs[i] = a
+		msc := diam.VerifNewSCTPConn(a)
+		defer diam.VerifRelease(msc)
+		if _, err := diam.NewConn(msc, "x", h, ctx.Parser); err != nil {
+			c.Fail(sig("setup"), nil, nil, "NewConn: %v", err)
+			return
+		}
+	}
+	for s := 1; ; s++ {
+		more := false
+		for i, a := range assocs {
+			if s <= sc.perConn[i] {
+				a.Feed(uint16(s%3), c08Msg(i, uint32(s), c08Body(i, s), sc.mux))
+				more = true
+			}
+		}
+		if !more {
+			break
+		}
+	}
+	synctest.Wait()
+	fail := false
+	if sc.handler == 2 {
+		select {
+		case <-held:
+		default:
+			c.Fail(sig("held-handler-not-reached"), nil, nil, "at quiescence the handler for association %d message %d had not started (%+v)", sc.holdConn, sc.holdSeq, sc)
+			fail = true
+		}
+		for i := range assocs {
+			if fail {
+				break
+			}
+			got := mons[i].count()
+			if i == sc.holdConn && got != int(sc.holdSeq) {
+				c.Fail(sig("dispatch-while-blocked"), nil, nil, "association %d: %d handlers were started although the handler of message %d (stream %d) has not returned; the later messages are on other streams", i, got, sc.holdSeq, sc.holdSeq%3)
+				fail = true
+			}
+			if i != sc.holdConn && got != sc.perConn[i] {
+				c.Fail(sig("other-connection-delayed"), nil, nil, "with the handler of association %d blocked, association %d had %d of %d messages dispatched at quiescence", sc.holdConn, i, got, sc.perConn[i])
+				fail = true
+			}
+		}
+		c.Event("blocked_handler_scenarios", 1)
+		close(release)
+		synctest.Wait()
+	} else if sc.handler == 1 {
+		time.Sleep(time.Second)
+		synctest.Wait()
+	}
+	for i := range assocs {
+		if fail {
+			break
+		}
+		mons[i].mu.Lock()
+		p, n := mons[i].problem, len(mons[i].seen)
+		mons[i].mu.Unlock()
+		if p != "" {
+			c.Fail(sig("one-at-a-time-in-order"), nil, nil, "association %d (messages on streams 1,2,0,1,..): %s (%+v)", i, p, sc)
+			fail = true
+		} else if n != sc.perConn[i] {
+			c.Fail(sig("lost-or-duplicated"), nil, nil, "association %d: %d handler invocations for %d messages (%+v)", i, n, sc.perConn[i], sc)
+			fail = true
+		}
+		c.Event("handler_invocations", n)
+	}
+	for _, a := range assocs {
+		a.FeedEOF()
+	}
+	synctest.Wait()
+	c.Event("sctp_scenarios", 1)
+}
+
 func TestC08(t *testing.T) {
 	rec := ev.Open(t, "C08")
 	defer rec.Close()
@@ -327,7 +419,13 @@ func TestC08(t *testing.T) {
 		if r.IntN(3) == 0 {
 			sc.prelude = 1 + r.IntN(3)
 		}
-		c.Class("K=%d/dialled=%v/pattern=%d/handler=%d/mux=%v/long=%v/prelude=%d", sc.K, sc.dialled, sc.pattern, sc.handler, sc.mux, long, sc.prelude)
+		if r.IntN(6) == 0 {
+			sc.sctp, sc.dialled, sc.prelude = true, true, 0
+			if sc.pattern == 1 {
+				sc.pattern = 0
+			}
+		}
+		c.Class("K=%d/dialled=%v/pattern=%d/handler=%d/mux=%v/long=%v/prelude=%d/sctp=%v", sc.K, sc.dialled, sc.pattern, sc.handler, sc.mux, long, sc.prelude, sc.sctp)
 		leak := runBubbleWD(t, rec, c, 60*time.Second, func() { runC08(c, ctx, sc) })
 		if leak != "" && !c.Failed() {
 			c.Fail(ev.Sig{"op": "bubble-leak"}, nil, nil, "goroutines left blocked after the scenario ended: %s (%+v)", leak, sc)
